@@ -158,7 +158,9 @@ int main() {
   panicked = UNWINDING; UNWINDING = 0; kind_at_op = FAULT_KIND; fired = fault_fired();
   no_bad_drop(); check_valid(&b);
   WIT(panicked && kind_at_op != F_DROP, "[user] a user-code panic is reachable");
+#if defined(S_FILL) || defined(S_FILL_WITH)
   WIT(panicked && kind_at_op == F_DROP, "[drop] a destructor panic is reachable");
+#endif
   WIT(panicked && kind_at_op != F_DROP && b.f0 > 0 && CEX_at >= 1, "[user] a user-code panic after at least one insertion is reachable");
   if (!panicked) {
     PROP(NN == 0 ? b.f0 == 0 : b.f0 == NN, "no fault: the buffer is full afterwards");
